@@ -31,7 +31,8 @@ TRUSTED = [
 ASSUMPTIONS = [
     'coordinates objects have independent axes (IdentityCoordinates, diagonal AffineCoordinates) and the dimension of the dataset',
     'derived components are added through add_component(link, label) with BinaryComponentLink chains (no identity links, no external links)',
-    'update_id(old, new) with new already in use, update_components on derived / coordinate components and update_components({}) are outside the domain',
+    'update_id(old, new) with new already in use, update_components on derived / coordinate components (including an id that is no longer a '
+    'component but still externally derivable: get_component resolves it to a helper DerivedComponent) and update_components({}) are outside the domain',
     'assigning an equal label / equal values counts as a change that happened (the call is the change): ComponentID.label = same announces a rename',
     'update_values_from_data: the correspondence stream only uses sources whose pixel / world attribute names equal the target\'s; the '
     'other sources are exercised by the oracle-only stream (known findings)',
@@ -366,12 +367,23 @@ class Exec(object):
         if k == 'updid' and op[1] != op[2]:
             inuse = set(id(c) for c in list(d.components) + list(d.pixel_component_ids) + list(d._world_component_ids))
             return not (id(self.obj(op[1])) in inuse and id(self.obj(op[2])) in inuse)
+        if k == 'coords' and op[1] is not None and len(d.components) > 0:
+            # a pixel component removed through the public API (known finding): the setter can empty the dataset half-way
+            # and then recurses for ever; the model does not follow the code there
+            present = set(id(c) for c in d.components)
+            if any(id(c) not in present for c in d.pixel_component_ids):
+                return False
         if k == 'updcomps':
             if len(op[1]) == 0 or len(set(c for c, _ in op[1])) != len(op[1]):
                 return False
             for c, sh in op[1]:
                 o = self.obj(c)
                 if o not in d.components:
+                    # get_component also resolves externally derivable ids (stale ones after leaving the collection, or a
+                    # removed coordinate id reachable through the coordinate links) to a helper DerivedComponent: updating
+                    # that is "update_components on a non-stored component", outside the domain
+                    if any(o is k for k in d._externally_derivable_components):
+                        return False
                     return True       # raises before anything else is looked at
                 if tuple(sh) != tuple(d.shape):
                     return True
